@@ -103,6 +103,21 @@ Theorem precip_zero (p : list R * list R) : nth 0 (fst p) 0 <= 0 <= last (snd p)
 Proof. intros [A B]. unfold precip. cbn [T RN nleb]. unfold nth0, lastn, nzero; cbn [nofZ RN T].
   rewrite (proj2 (Rleb_true _ _) A), (proj2 (Rleb_true _ _) B). reflexivity. Qed.
 
+(* P ** c with a negative real exponent on a support containing zero raises, whatever x ** c and the zero-straddling route are *)
+Theorem ppow_zero (powf : R -> R -> R) (route0 : list R * list R -> R -> res (list R * list R)) (p : list R * list R) (c : R) :
+  c < 0 -> nth 0 (fst p) 0 <= 0 <= last (snd p) 0 -> ppow RN steps plo phi powf route0 p c = Raise ZeroDivision.
+Proof. intros C [A B]. unfold ppow. cbn [T RN nleb nltb]. unfold nth0, lastn, nzero; cbn [nofZ RN T].
+  rewrite (proj2 (Rltb_true _ _) C), (proj2 (Rleb_true _ _) A), (proj2 (Rleb_true _ _) B). reflexivity. Qed.
+(* ... and a value it returns did not come from that case: the exponent is non-negative or zero lies outside the support *)
+Theorem ppow_ok_guard (powf : R -> R -> R) route0 (p : list R * list R) (c : R) r :
+  ppow RN steps plo phi powf route0 p c = Ok r -> 0 <= c \/ 0 < nth 0 (fst p) 0 \/ last (snd p) 0 < 0.
+Proof.
+  intros E. destruct (Rle_dec 0 c) as [|C]; [left; assumption|right].
+  destruct (Rlt_dec 0 (nth 0 (fst p) 0)) as [|A]; [left; assumption|right].
+  destruct (Rlt_dec (last (snd p) 0) 0) as [|B]; [assumption|exfalso].
+  rewrite ppow_zero in E; [discriminate|lra|lra].
+Qed.
+
 (* a map that is nondecreasing on a domain containing the support (exp, log, sqrt, positive powers) *)
 Theorem punary_mono (f : R -> R) (D : R -> Prop) (p : list R * list R) :
   WFs p -> (forall x, In x (fst p) \/ In x (snd p) -> D x) -> (forall a b, D a -> D b -> a <= b -> f a <= f b) ->
